@@ -11,7 +11,8 @@
 //! comp: "conv" / "bel" = toy-builder units at realistic scale, "hyb" = altrios' default hybrid.
 //! kinds: "loco" LocomotiveSimulation (first unit), "consist" ConsistSimulation,
 //! "setspeed" SetSpeedTrainSim, "slts" SpeedLimitTrainSim (walk / step),
-//! "timed" SpeedLimitTrainSim::walk_timed_path.
+//! "timed" SpeedLimitTrainSim::walk_timed_path, "vec" SpeedLimitTrainSimVec of two equal simulations
+//! (interval set through the vector, the trees of both elements recorded one after the other).
 //!
 //! Abstraction function (nothing is judged here):
 //!   node   = every JSON object with a "history" object holding an "i" array
@@ -84,6 +85,17 @@ fn train_cfg() -> anyhow::Result<TrainConfig> {
         "vmax":32.0,"braking_ratio":0.125,"bearing":64.0,"rolling":0.001953125}))
 }
 
+/// runs every call of the iterator and returns the first error (equal elements fail alike)
+fn all_of(it: impl Iterator<Item = anyhow::Result<()>>) -> anyhow::Result<()> {
+    let mut first = Ok(());
+    for r in it {
+        if first.is_ok() {
+            first = r;
+        }
+    }
+    first
+}
+
 enum Sim {
     Loco(Box<LocomotiveSimulation>),
     Con(Box<ConsistSimulation>),
@@ -93,6 +105,13 @@ enum Sim {
         net: Network,
         extended: bool,
         timed: bool,
+    },
+    /// SpeedLimitTrainSimVec of two equal simulations driven in lockstep: the interval is set
+    /// through the vector (SpeedLimitTrainSimVec::set_save_interval), everything else per element
+    Vec {
+        sims: altrios_core::train::SpeedLimitTrainSimVec,
+        net: Network,
+        extended: bool,
     },
 }
 
@@ -164,6 +183,21 @@ impl Sim {
                     timed: kind == "timed",
                 }
             }
+            "vec" => {
+                let mut v = vec![];
+                let mut netk = None;
+                for _ in 0..2 {
+                    if let Sim::Sl { sim, net, .. } = Sim::new("slts", comp, v0, u0, c0)? {
+                        v.push(*sim);
+                        netk = Some(net);
+                    }
+                }
+                Sim::Vec {
+                    sims: altrios_core::train::SpeedLimitTrainSimVec(v),
+                    net: netk.unwrap(),
+                    extended: false,
+                }
+            }
             _ => anyhow::bail!("unknown kind {kind}"),
         })
     }
@@ -174,6 +208,7 @@ impl Sim {
             Sim::Con(s) => s.i,
             Sim::Ss(s) => s.state.i,
             Sim::Sl { sim, .. } => sim.state.i,
+            Sim::Vec { sims, .. } => sims.0[1].state.i,
         }
     }
 
@@ -183,6 +218,7 @@ impl Sim {
             Sim::Con(s) => s.set_save_interval(v),
             Sim::Ss(s) => s.set_save_interval(v),
             Sim::Sl { sim, .. } => sim.set_save_interval(v),
+            Sim::Vec { sims, .. } => sims.set_save_interval(v),
         }
     }
 
@@ -198,6 +234,10 @@ impl Sim {
             Sim::Con(s) => s.loco_con.set_loco_vec(units),
             Sim::Ss(s) => s.loco_con.set_loco_vec(units),
             Sim::Sl { sim, .. } => sim.loco_con.set_loco_vec(units),
+            Sim::Vec { sims, .. } => {
+                sims.0[0].loco_con.set_loco_vec(units.clone());
+                sims.0[1].loco_con.set_loco_vec(units);
+            }
         }
         self.set(v);
         Ok(())
@@ -207,6 +247,14 @@ impl Sim {
         if let Sim::Sl { sim, net, extended, .. } = self {
             if !*extended {
                 sim.extend_path(net.as_ref(), &[LinkIdx::new(1), LinkIdx::new(2)])?;
+                *extended = true;
+            }
+        }
+        if let Sim::Vec { sims, net, extended } = self {
+            if !*extended {
+                for sim in sims.0.iter_mut() {
+                    sim.extend_path(net.as_ref(), &[LinkIdx::new(1), LinkIdx::new(2)])?;
+                }
                 *extended = true;
             }
         }
@@ -238,6 +286,10 @@ impl Sim {
                 // before the first extend_path the path is empty: walk() saves and returns
                 anyhow::ensure!(!*extended, "initial save after the path was extended");
                 sim.walk()
+            }
+            Sim::Vec { sims, extended, .. } => {
+                anyhow::ensure!(!*extended, "initial save after the path was extended");
+                all_of(sims.0.iter_mut().map(|sim| sim.walk()))
             }
         }
     }
@@ -272,6 +324,13 @@ impl Sim {
                 }
                 sim.step()
             }
+            // every element takes the call (lockstep), the first error is reported
+            Sim::Vec { sims, .. } => all_of(sims.0.iter_mut().map(|sim| {
+                if fail {
+                    sim.fric_brake.force_max = uc::N * -1.0e15;
+                }
+                sim.step()
+            })),
         })
     }
 
@@ -319,6 +378,7 @@ impl Sim {
                     sim.walk()
                 }
             }
+            Sim::Vec { sims, .. } => all_of(sims.0.iter_mut().map(|sim| sim.walk())),
         })
     }
 
@@ -328,6 +388,7 @@ impl Sim {
             Sim::Con(s) => serde_json::to_value(&**s).unwrap(),
             Sim::Ss(s) => serde_json::to_value(&**s).unwrap(),
             Sim::Sl { sim, .. } => serde_json::to_value(&**sim).unwrap(),
+            Sim::Vec { sims, .. } => serde_json::to_value(sims).unwrap(),
         }
     }
     fn simi(&self) -> i64 {
@@ -445,10 +506,19 @@ fn rank(n: &Value) -> (i64, i64, i64) {
 
 fn nodes(sim: &Sim) -> Value {
     let v = sim.value();
-    let mut out = vec![];
-    collect(&v, &mut vec![], &mut out);
-    out.sort_by_key(rank);
-    Value::Array(out)
+    // a vector of simulations: the trees of its elements one after the other
+    let roots: Vec<&Value> = match (&v, sim) {
+        (Value::Array(a), Sim::Vec { .. }) => a.iter().collect(),
+        _ => vec![&v],
+    };
+    let mut all = vec![];
+    for r in roots {
+        let mut out = vec![];
+        collect(r, &mut vec![], &mut out);
+        out.sort_by_key(rank);
+        all.extend(out);
+    }
+    Value::Array(all)
 }
 
 // ---------------------------------------------------------------------------------------------
@@ -505,7 +575,7 @@ fn run_kind(kind: &str, comp: &[Value], sched: &[Value], tr: &mut Tracer) -> any
 fn exec(desc: &Value, tr: &mut Tracer) -> anyhow::Result<()> {
     let comp = ga(desc, "comp").clone();
     let sched = ga(desc, "sched").clone();
-    let default_kinds = vec![json!("loco"), json!("consist"), json!("setspeed"), json!("slts")];
+    let default_kinds = vec![json!("loco"), json!("consist"), json!("setspeed"), json!("slts"), json!("vec")];
     let kinds = desc.get("kinds").and_then(|x| x.as_array()).unwrap_or(&default_kinds);
     for k in kinds {
         run_kind(k.as_str().unwrap_or(""), &comp, &sched, tr)?;
@@ -534,8 +604,8 @@ fn gen(seed: u64, n: usize, _tier: &str) -> Vec<Value> {
         for _ in 0..r.range(0, 2) {
             sched.push(json!(["Set", *r.pick(&ivs)]));
         }
-        let kind = *r.pick(&["loco", "consist", "setspeed", "slts", "timed"]);
-        if (kind == "slts" || kind == "timed") || r.chance(2, 3) {
+        let kind = *r.pick(&["loco", "consist", "setspeed", "slts", "timed", "vec"]);
+        if (kind == "slts" || kind == "timed" || kind == "vec") || r.chance(2, 3) {
             sched.push(json!(["Walk", r.range(1, 40)]));
         } else {
             sched.push(json!(["WalkErr", r.range(1, 30)]));
